@@ -2,7 +2,7 @@
    Only ExtrOcamlBasic's directives are used (bool, option, unit, list, prod, sumbool, sumor
    to OCaml natives); nat, N, Z, positive stay extracted inductives. *)
 Require Import Extraction ExtrOcamlBasic.
-From CV Require Import Base.Prelude Base.Val Base.Bytes Gen.OpTables Gen.Consts Tables.OpTablesModel Ser.Serialize Rich.Rich Clvm.Path Clvm.Eval Clvm.Ops Opt.ClassicOpt Step.Stepper Step.Cldb Lang.Scope.
+From CV Require Import Base.Prelude Base.Val Base.Bytes Gen.OpTables Gen.Consts Tables.OpTablesModel Ser.Serialize Rich.Rich Clvm.Path Clvm.Eval Clvm.Ops Opt.ClassicOpt Step.Stepper Step.Cldb Lang.Scope Lang.PEval.
 
 Set Extraction Output Directory ".".
 Extraction "model.ml"
@@ -16,5 +16,6 @@ Extraction "model.ml"
   (* C06 *) run start eval_nph
   (* C12 *) trace cldb_start
   (* C10 *) toposort assign_stages mkItem
+  (* C16 C17 *) seval shrink reported_unused mentions plain
   (* C20 *) kw_pairs modern_prims from_atom_rows to_atom_rows keyword_from_atom keyword_to_atom
             prim_lookup implemented opcode_canonical be_val operators_latest_version.
